@@ -127,7 +127,7 @@ func firstLines(s string, n int) string {
 
 // Replay runs the harness natively (go test -overlay) with the model's inputs.
 func (s *Suite) Replay(h Harness, v gose.Violation) (string, bool) {
-	dir, err := os.MkdirTemp(s.Env.Dir, "goreplay-")
+	dir, err := os.MkdirTemp(s.Env.Dir, "goreplay_")
 	if err != nil {
 		return err.Error(), false
 	}
